@@ -300,7 +300,7 @@ func init() {
 			if err != nil {
 				return "", false
 			}
-			return canonInt(int64(math.Round(t.Sub(pgEpoch).Hours() / 24))), true
+			return canonInt(int64(math.Floor(float64(t.Unix()-pgEpoch.Unix()) / 86400))), true
 		},
 		Binary: func(b []byte) (string, bool) {
 			if len(b) != 4 {
@@ -335,7 +335,7 @@ func init() {
 			if err != nil {
 				return "", false
 			}
-			return canonInt(t.Sub(pgEpoch).Microseconds() + overflowFix(t)), true
+			return canonInt(usSinceEpoch(t)), true
 		},
 		Binary: func(b []byte) (string, bool) {
 			if len(b) != 8 {
@@ -427,7 +427,9 @@ func TypedNull(oid int, kind string) any {
 		case 1082, 1114, 1184:
 			return (*time.Time)(nil)
 		case 2950:
-			return (*pgtype.UUID)(nil)
+			// a nil *pgtype.UUID makes pgx call a value-receiver method through the nil pointer (pgx's own
+			// behaviour, outside the library under test): use a nil pointer to the plain Go representation
+			return (*[16]byte)(nil)
 		}
 		return (*string)(nil)
 	case "inv":
